@@ -9,3 +9,5 @@ pub mod dtls_rig;
 pub mod demux_bridge;
 pub mod stun_diff;
 pub mod ice_attack;
+pub mod jsep_fsm;
+pub mod sdp_neg;
